@@ -21,8 +21,22 @@ structure DState where
   view   : Sync.View := Sync.View.empty
   prev   : Option Sync.Frozen := none
   recent : List Nat := []
-  sys    : System.Sys := System.Sys.init
-  grave  : List (Nat × List Nat) := []   -- dict backend: flags a message had when it was deleted (the aliased cached object)
+  srv    : Server.Srv := Server.Srv.init 0 0
+  lbox   : Mailbox.MBox := Mailbox.MBox.new
+  lobs   : List (Sync.View × Option Nat) := []
+
+def showItem : Server.Item → String
+  | .expunge n => s!"EXPUNGE:{n}"
+  | .exists_ n => s!"EXISTS:{n}"
+  | .recent n => s!"RECENT:{n}"
+  | .fetch s f r u => s!"FETCH:{s}:" ++ (match f with | some f => showNats f ++ (if r then "+R" else "") | none => "none") ++ ":" ++
+      (match u with | some u => toString u | none => "-")
+  | .search ids => s!"SEARCH:{showNats ids}"
+  | .bye => "BYE"
+
+def showResp (r : Server.Resp) : String :=
+  (match r.status with | .ok => "OK" | .no => "NO" | .bad => "BAD") ++ "|" ++ r.code ++ "|" ++
+    " ".intercalate (r.items.map showItem)
 
 def parseSet (elems : String) : List Seq.Elem :=
   let idx (t : String) : Seq.Idx := if t == "*" then .star else .num t.toNat!
@@ -31,30 +45,7 @@ def parseSet (elems : String) : List Seq.Elem :=
     | [a, b] => Seq.Elem.range (idx a) (idx b)
     | _ => Seq.Elem.one .star)
 
-/-- repaired `CommandResponse.add_untagged`: the fork's FETCH merges into an earlier FETCH with the same
-sequence number only if no EXPUNGE lies between them -/
-def assemble (own : List Sync.Untagged) (fork : List Sync.Untagged) : List Sync.Untagged :=
-  let hasExp := fork.any (fun r => match r with | .expunge _ => true | _ => false)
-  if hasExp then own ++ fork else
-  fork.foldl (fun acc r => match r with
-    | .fetch s u f rc w =>
-      if acc.any (fun a => match a with | .fetch s' _ _ _ _ => s' == s | _ => false) then
-        acc.map (fun a => match a with
-          | .fetch s' u' _ rc' w' => if s' == s then .fetch s' u' f (rc || rc') (w || w') else a
-          | x => x)
-      else acc ++ [r]
-    | x => acc ++ [x]) own
-
-/-- finish a command of session `i`: sync, fork, assemble with the command's own FETCH lines -/
-def finish (sys : System.Sys) (i : Nat) (hide wu : Bool) (own : List Sync.Untagged) : System.Sys × String :=
-  match sys.sess[i]? with
-  | none => (sys, "no-session")
-  | some x =>
-    let r := Mailbox.updateSelected sys.box x.view (some x.p) hide
-    let out := Sync.compare (Sync.freeze x.view []) (Sync.freeze r.1 []) hide [] wu false
-    let sys' := System.step sys (.sync i hide wu)
-    let all := assemble own out
-    (sys', if all.isEmpty then "-" else " ".intercalate (all.map showUntagged))
+def srvOut (st : DState) (r : Server.Srv × Server.Resp) : DState × String := ({ st with srv := r.1 }, showResp r.2)
 
 /-- `sync add <uid>:<flags>;... | <expunged> | <hide>`  then  `sync fork <hide> <withUid>` -/
 def handle (st : DState) (line : String) : DState × String :=
@@ -85,40 +76,45 @@ def handle (st : DState) (line : String) : DState × String :=
       | none => []
       | some p => Sync.compare p fr (hide == "1") [] (wu == "1") false
     ({ st with prev := some fr }, if out.isEmpty then "-" else " ".intercalate (out.map showUntagged))
-  | ["sys", "reset"] => ({ st with sys := System.Sys.init, grave := [] }, "ok")
-  | ["sys", "select"] =>
-    let sys' := System.step st.sys .select
-    let n := match sys'.sess.getLast? with | some x => x.view.uids.length | none => 0
-    ({ st with sys := sys' }, s!"EXISTS:{n}")
-  | ["sys", "append", i, flags] =>
-    let sys1 := System.step st.sys (.append (parseNats flags) false 0 0)
-    let (sys2, out) := finish sys1 i.toNat! false false []
-    ({ st with sys := sys2 }, out)
-  | ["sys", "noop", i] =>
-    let (sys2, out) := finish st.sys i.toNat! false false []
-    ({ st with sys := sys2 }, out)
-  | ["sys", "store", i, byUid, set, mode, flags] =>
-    match st.sys.sess[i.toNat!]? with
-    | none => (st, "no-session")
-    | some x =>
-      let bu := byUid == "1"
-      let tg := Session.targets x.view bu (parseSet set)
-      let box' := Session.storeCmd st.sys.box x.view bu (parseSet set) mode.toNat! (parseNats flags) [0, 1, 2, 3, 4]
-      let own := tg.map (fun (p : Nat × Nat) => match box'.find p.2 with
-        | some m => Sync.Untagged.fetch p.1 p.2 m.flags false bu
-        | none =>   -- expunged meanwhile: the reply is computed from the cached copy (`get(uid, cached_msg)`)
-          let cached := (Sync.lookup p.2 st.grave).getD ((Sync.lookup p.2 x.view.fkeys).getD [])
-          Sync.Untagged.fetch p.1 p.2 (Session.applyOp mode.toNat! (parseNats flags) cached) false bu)
-      let (sys2, out) := finish { st.sys with box := box' } i.toNat! (!bu) bu own
-      ({ st with sys := sys2 }, out)
-  | ["sys", "expunge", i] =>
-    match st.sys.sess[i.toNat!]? with
-    | none => (st, "no-session")
-    | some x =>
-      let box' := Session.expungeCmd st.sys.box x.view none
-      let gone := st.sys.box.msgs.filter (fun m => (box'.find m.uid).isNone)
-      let (sys2, out) := finish { st.sys with box := box' } i.toNat! false false []
-      ({ st with sys := sys2, grave := gone.map (fun m => (m.uid, m.flags)) ++ st.grave }, out)
+  | ["log", "reset"] => ({ st with lbox := Mailbox.MBox.new, lobs := [] }, "ok")
+  | ["log", "observer", _] => ({ st with lobs := st.lobs ++ [(Sync.View.empty, none)] }, "ok")
+  | ["log", "update", us] =>
+    let b := (parseNats us).foldl (fun b u =>
+      if u ∈ b.uids then Mailbox.updateFlags b u id
+      else { b with maxUid := u, msgs := b.msgs ++ [⟨u, [], false, 0, 0⟩], log := b.log.update [u] }) st.lbox
+    ({ st with lbox := b }, "ok")
+  | ["log", "expunge", us] => ({ st with lbox := Mailbox.delete st.lbox (parseNats us) }, "ok")
+  | ["log", "sync", k] =>
+    match st.lobs[k.toNat!]? with
+    | none => (st, "no-observer")
+    | some (v, p) =>
+      let r := Mailbox.updateSelected st.lbox v p false
+      ({ st with lobs := st.lobs.set k.toNat! (r.1, some r.2) }, showNats r.1.sorted)
+  | ["srv", "reset", nb, ns] => ({ st with srv := Server.Srv.init nb.toNat! ns.toNat! }, "ok")
+  | ["srv", "select", i, box, ex] => srvOut st (Server.select st.srv i.toNat! box.toNat! (ex == "1"))
+  | ["srv", "append", i, dest, flags, pick, cid, date] =>
+    srvOut st (Server.append st.srv i.toNat! dest.toNat! (parseNats flags) pick.toNat! cid.toNat! date.toNat!)
+  | ["srv", "store", i, byUid, set, mode, flags, silent] =>
+    srvOut st (Server.store st.srv i.toNat! (byUid == "1") (parseSet set) mode.toNat! (parseNats flags) (silent == "1"))
+  | ["srv", "fetch", i, byUid, set, wantFlags, wantUid, setsSeen] =>
+    srvOut st (Server.fetch st.srv i.toNat! (byUid == "1") (parseSet set) (wantFlags == "1") (wantUid == "1") (setsSeen == "1"))
+  | ["srv", "expunge", i, set] =>
+    srvOut st (Server.expunge st.srv i.toNat! (if set == "-" then none else some (parseSet set)))
+  | ["srv", "copy", i, mv, byUid, set, dest, pick] =>
+    srvOut st (Server.copyMove st.srv i.toNat! (mv == "1") (byUid == "1") (parseSet set) dest.toNat! pick.toNat!)
+  | ["srv", "noop", i] => srvOut st (Server.noop st.srv i.toNat!)
+  | ["srv", "check", i] => srvOut st (Server.check st.srv i.toNat!)
+  | ["srv", "close", i] => srvOut st (Server.close st.srv i.toNat!)
+  | ["srv", "search", i, byUid, seqs, uids, tests] =>
+    let ts := if tests == "-" then [] else (tests.splitOn ";").map (fun t => match t.splitOn ":" with
+      | [f, e] => (f.toNat!, e == "1")
+      | _ => (0, true))
+    srvOut st (Server.search st.srv i.toNat! (byUid == "1") (if seqs == "-" then none else some (parseSet seqs))
+      (if uids == "-" then none else some (parseSet uids)) ts)
+  | ["srv", "dump", box] =>
+    let b := st.srv.box box.toNat!
+    (st, s!"{b.maxUid} " ++ (if b.msgs.isEmpty then "-" else " ".intercalate (b.msgs.map (fun m =>
+      s!"{m.uid}:{showNats m.flags}:{if m.recent then 1 else 0}:{m.cid}"))))
   | ["modutf7enc", cps] => (st, showNats (ModUtf7.encodeName (parseNats cps)))
   | ["modutf7dec", bs] => (st, match ModUtf7.decodeName (parseNats bs) with | some l => showNats l | none => "ERR")
   | _ => (st, "bad-op")
